@@ -350,6 +350,10 @@ func (l *lexer) acceptRun(ttype int, valid string) bool {
 
 func (l *lexer) acceptString() bool {
 	begin := l.next()
+	if begin == eof {
+		// nothing left: an empty token here would be accepted again and again by the callers' loops
+		return false
+	}
 	isDblQuote := begin == char_doublequote
 	isSglQuote := begin == char_singlequote
 	isSpaceDelim := !isSglQuote && !isDblQuote
